@@ -109,11 +109,11 @@ def _c_worker_factory(jobs, seed, ncalls):
                 # T from zero A, from random A, and from a second call on the result
                 Tz = call(np.zeros_like(A0))
                 Ar = call(A0.copy())
-                scale = max(1.0, float(np.abs(Tz).max()) if Tz.size else 1.0, float(np.abs(A0).max()) if A0.size else 1.0)
-                if not np.allclose(Ar - A0, Tz, rtol=0, atol=1e-11 * scale):
+                scale = max(1.0, float(np.nanmax(np.abs(Tz))) if Tz.size and np.isfinite(Tz).any() else 1.0, float(np.abs(A0).max()) if A0.size else 1.0)
+                if not np.allclose(Ar - A0, Tz, rtol=0, atol=1e-11 * scale, equal_nan=True):
                     out["bad"].append({"kernel": c.name, "what": "T depends on initial A", "maxdiff": float(np.abs(Ar - A0 - Tz).max())})
                 A2 = call(Ar.copy())
-                if not np.allclose(A2 - Ar, Tz, rtol=0, atol=1e-11 * scale):
+                if not np.allclose(A2 - Ar, Tz, rtol=0, atol=1e-11 * scale, equal_nan=True):
                     out["bad"].append({"kernel": c.name, "what": "second call adds a different T (history dependence)", "maxdiff": float(np.abs(A2 - Ar - Tz).max())})
                 if not (np.array_equal(w_, pad(w)) and np.array_equal(c_, pad(cc)) and np.array_equal(x_, pad(x))
                         and list(ent_) == (ent or [0]) and list(prm_) == (prm or [0])):
@@ -124,7 +124,7 @@ def _c_worker_factory(jobs, seed, ncalls):
                     ths = [threading.Thread(target=call, args=(res[t],)) for t in range(8)]
                     [t.start() for t in ths]
                     [t.join() for t in ths]
-                    if not all(np.array_equal(r, Tz) for r in res):
+                    if not all(np.array_equal(r, Tz, equal_nan=True) for r in res):
                         out["bad"].append({"kernel": c.name, "what": "concurrent calls on disjoint A differ from sequential"})
         return out
     return work
